@@ -160,6 +160,7 @@ impl Type {
                     .try_fold(first, |acc, curr| Some(acc | curr?))
             }
             Type::String => Some(Type::String),
+            Type::Never => Some(Type::Never),
             _ => None,
         }
     }
@@ -195,6 +196,7 @@ impl Type {
                 iter.map(Self::return_type)
                     .try_fold(first, |acc, curr| Some(acc | curr?))
             }
+            Type::Never => Some(Type::Never),
             _ => None,
         }
     }
@@ -209,6 +211,7 @@ impl Type {
                 iter.map(Self::element_type)
                     .try_fold(first, |acc, curr| Some(acc | curr?))
             }
+            Type::Never => Some(Type::Never),
             _ => None,
         }
     }
@@ -308,6 +311,7 @@ impl Type {
                 iter.map(Self::iter_element)
                     .try_fold(first, |acc, curr| Some(acc | curr?))
             }
+            Self::Never => Some(Self::Never),
             _ => None,
         }
     }
